@@ -628,7 +628,7 @@ func parseFuncHeader(rest string) (*funcContract, error) {
 	// closures: "Outer$1(params) (results)" - '$' is not a Go identifier char
 	src := rest
 	clo := ""
-	if m := regexp.MustCompile(`^((\([^)]*\)\s*)?[A-Za-z_][A-Za-z0-9_]*)@([A-Za-z_][A-Za-z0-9_]*)`).FindStringSubmatch(src); m != nil {
+	if m := regexp.MustCompile(`^((\([^)]*\)\s*)?[A-Za-z_][A-Za-z0-9_]*)@([A-Za-z_][A-Za-z0-9_]*(\.[A-Za-z_][A-Za-z0-9_]*)?)`).FindStringSubmatch(src); m != nil {
 		clo = "@" + m[3]
 		src = m[1] + src[len(m[0]):]
 	}
